@@ -43,6 +43,32 @@ def modelOut (is : List Instruction) : Sexp :=
       | _ => .list [.atom "reparse", .list [.atom "err"]]
     .list [.atom "out", listingSexp "listing" l, .list [.atom "print", toksSexp "ok" ts], re, debug]
 
+def errName : PrintError → String
+  | .unresolvedLabelPlaceholder => "label"
+  | .unresolvedQubitPlaceholder => "qubit"
+
+/-- `Instruction::to_quil` of every listed instruction, as the model predicts it -/
+def eachSexp (l : List Instruction) : Sexp :=
+  .list (.atom "each" :: l.map fun i => match firstErr i with
+    | some e => Sexp.atom (errName e)
+    | none => Sexp.atom "ok")
+
+def allTrue (tag : String) : Sexp → Bool
+  | .list (.atom t :: xs) => t == tag && xs.all fun x =>
+      match x with
+      | .list [.atom _, .atom "true"] => true
+      | .list [.atom n, _] => n.startsWith "info-"
+      | _ => false
+  | _ => false
+
+def failing : Sexp → List String
+  | .list (.atom _ :: xs) => xs.filterMap fun x =>
+      match x with
+      | .list [.atom _, .atom "true"] => none
+      | .list [.atom n, _] => if n.startsWith "info-" then none else some n
+      | _ => some "?"
+  | _ => ["missing"]
+
 /-- the Bool specification on the implementation's output:
 * a placeholder is present ⇔ printing failed with an unresolved-placeholder error;
 * no placeholder and well-formed ⇒ printing succeeded and the text parsed to an equivalent program;
@@ -67,8 +93,11 @@ def specOnOut (is : List Instruction) (out : Sexp) : Bool × String :=
     | _ => none
   let c1 := ph == printErr && (ph || printOk)
   let c2 := if !ph && wf then (match reparsed with | some r => equivInstrs l r | none => false) else true
-  (c1 && c2 && (debugOk || !wf),
-    s!"placeholder={ph} wellFormed={wf} printErr={printErr} printOk={printOk} debugOk={debugOk} clause1={c1} clause2={c2}")
+  -- the sibling routes: always-clauses for every program, wf-clauses for well-formed placeholder-free ones
+  let c3 := allTrue "always" (piece out 6)
+  let c4 := if !ph && wf then allTrue "wf" (piece out 7) else true
+  (c1 && c2 && (debugOk || !wf) && c3 && c4,
+    s!"placeholder={ph} wellFormed={wf} printErr={printErr} printOk={printOk} debugOk={debugOk} clause1={c1} clause2={c2} always-failing={failing (piece out 6)} wf-failing={if !ph && wf then failing (piece out 7) else []}")
 
 def sizeTag (n : Nat) : String :=
   if n == 0 then "n0" else if n == 1 then "n1" else if n ≤ 3 then "n2-3" else "n4+"
@@ -85,15 +114,16 @@ def handle (inp out : Sexp) : CaseResult :=
       let mOut := modelOut is
       -- outside the well-formed domain the token-level model makes no claim about the printed text (a name
       -- that is a reserved word lexes as a keyword): only the listing and the error behaviour are compared
-      let agree :=
-        if wf then mOut == out
+      let eachOk := eachSexp l == piece out 5
+      let agree := eachOk &&
+        if wf then (List.range 5).all fun k => piece mOut k == piece out k
         else piece mOut 1 == piece out 1 &&
           (match piece mOut 2, piece out 2 with
            | .list [.atom "print", .list (.atom "err" :: a)], .list [.atom "print", .list (.atom "err" :: b)] => a == b
            | .list [.atom "print", .list (.atom "ok" :: _)], .list [.atom "print", .list (.atom "ok" :: _)] => true
            | _, _ => false)
       let (spec, specDetail) := specOnOut is out
-      let diffs := (List.range 5).filter fun k => piece mOut k != piece out k
+      let diffs := ((List.range 5).filter fun k => piece mOut k != piece out k) ++ (if eachOk then [] else [5])
       let normChanged := match piece out 3 with
         | .list [.atom "reparse", .list [.atom "ok", lst]] => lst != listingSexp "listing" l
         | _ => false
@@ -103,6 +133,10 @@ def handle (inp out : Sexp) : CaseResult :=
             (if wf then "wellformed" else "not-wellformed"),
             (if ph then "placeholder" else "no-placeholder"),
             (if normChanged then "reparsed-differs-structurally" else "reparsed-identical"),
+            (match piece out 7 with
+             | .list (.atom "wf" :: xs) =>
+               if xs.contains (.list [.atom "info-text2-eq-text1", .atom "false"]) then "text2-differs" else "text2-same"
+             | _ => "text2-na"),
             (if numTokInstrs stdFmt l then "numtok-ok" else (if wf then "NUMTOK-FAILS" else "numtok-fails-not-wf")),
             (match piece out 2 with
              | .list [.atom "print", .list [.atom "err", .atom k]] => "print-err-" ++ k
